@@ -108,6 +108,27 @@ func LoadWorld(repo string, specDirs []string) (*World, error) {
 		}
 		w.funcs[funcKey(fn)] = fn
 	}
+	// methods of repo types that nothing in the program calls are not in AllFunctions: add them
+	for _, sp := range w.pkgs {
+		for _, m := range sp.Members {
+			tm, ok := m.(*ssa.Type)
+			if !ok {
+				continue
+			}
+			for _, t := range []types.Type{tm.Type(), types.NewPointer(tm.Type())} {
+				ms := prog.MethodSets.MethodSet(t)
+				for i := 0; i < ms.Len(); i++ {
+					fn := prog.MethodValue(ms.At(i))
+					if fn == nil || fn.Blocks == nil || fn.Synthetic != "" || fn.Pkg == nil || !w.repoPkgs[fn.Pkg.Pkg] {
+						continue
+					}
+					if _, ok := w.funcs[funcKey(fn)]; !ok {
+						w.funcs[funcKey(fn)] = fn
+					}
+				}
+			}
+		}
+	}
 	for _, k := range sortedKeys(w.funcs) {
 		w.funcList = append(w.funcList, w.funcs[k])
 	}
